@@ -1105,6 +1105,225 @@ class NativeBookkeeping(NativeCheck):
         return str(inp)
 
 
+SFC = 'moPepGen/cli/split_fasta.py'
+
+
+class _OrderEntry:
+    """one comma-separated entry of --order-source: a single source, or sources joined by '-'"""
+    def __init__(self, owner, i):
+        self.owner, self.i = owner, i
+
+    def sym_contains(self, I, item):
+        if item == '-':
+            return self.owner._cur.multi(self.i)
+        raise Unsupported('substring test on an order entry')
+
+    def sym_method(self, I, name, a, k):
+        if name == 'split' and list(a) == ['-']:
+            return _OrderParts(self)
+        raise Unsupported(f'order entry .{name}')
+
+
+class _OrderParts:
+    def __init__(self, entry):
+        self.entry = entry
+
+
+class _OrderKey:
+    """what an entry is stored as: the entry itself (single source) or the frozenset of its parts"""
+    def __init__(self, entry, as_set):
+        self.entry, self.as_set = entry, as_set
+
+
+class _OrderStr:
+    def __init__(self, owner):
+        self.owner = owner
+
+    def sym_truth(self, I):
+        return True
+
+    def sym_method(self, I, name, a, k):
+        if name == 'split' and list(a) == [',']:
+            st = self.owner._cur
+            return FnView(st.n_order, lambda i: _OrderEntry(self.owner, i if is_z3(i) else z3.IntVal(i)), tag='order entries')
+        raise Unsupported(f'order string .{name}')
+
+
+class _GhostOrder:
+    def __init__(self, owner):
+        self.owner = owner
+
+    def sym_contains(self, I, item):
+        return I.e.bool('entry_already_present')
+
+    def sym_setitem(self, I, key, v):
+        self.owner._cur.order_writes.append((key, v))
+
+
+@register
+class SplitCLI(Contract):
+    """splitFasta: every given peptide FASTA is loaded into the splitter, every GVF read for its labels, the i-th entry of --order-source
+    gets rank i (a combination 'A-B' as the set of its parts, a duplicate entry is an error), --group-source 'G:a,b' maps a and b to G,
+    --additional-split sets are the '-'-separated parts, --max-source-groups and the transcript->gene / coding tables built from the
+    annotation reach split(), and the result is written with the output prefix; only options the real parser defines are read"""
+    path, qualname, props = SFC, 'split_fasta', ('C18',)
+    declared_raises = ['ValueError']
+    assumptions = ('external: load_references, open, load_database, load_gvf, split (own contract), write; the annotation iterates N transcripts',)
+
+    def setup(self, I):
+        e = I.e
+        st = types.SimpleNamespace(loaded=[], gvfs=[], split=[], writes=[], order_writes=[], ctor=[])
+        dests = parser_dests('moPepGen.cli.split_fasta', 'add_subparser_split_fasta')
+        st.n_order = e.int('n_order_entries')
+        st.multi = z3.Function('entry_is_a_combination', I_, B_)
+        e.assume(st.n_order >= 1)
+        st.has = {k: e.branch(e.bool(f'{k}_given'), k) for k in ('variant', 'novel', 'alt')}
+        st.fasta = dict(variant_peptides=SymObj('Path18', n='variant') if st.has['variant'] else None,
+                        novel_orf_peptides=SymObj('Path18', n='novel') if st.has['novel'] else None,
+                        alt_translation_peptides=SymObj('Path18', n='alt') if st.has['alt'] else None)
+        st.ngvf = e.int('n_gvf')
+        e.assume(st.ngvf >= 0)
+        zz = lambda i: i if is_z3(i) else z3.IntVal(i)
+        st.gvf_view = FnView(st.ngvf, lambda i: SymObj('Gvf18', i=zz(i)), tag='gvf files')
+        st.order_given = e.branch(e.bool('order_source_given'), 'order given')
+        st.group_given = e.branch(e.bool('group_source_given'), 'group given')
+        st.add_given = e.branch(e.bool('additional_split_given'), 'additional given')
+        st.max_groups = e.int('max_source_groups')
+        st.prefix = SymObj('Path18', n='prefix')
+        known = dict(gvf=st.gvf_view, order_source=_OrderStr(self) if st.order_given else None,
+                     group_source=['Coding:gSNP,gINDEL', 'Alt:SECT'] if st.group_given else None,
+                     additional_split=['gSNP-gINDEL', 'Fusion'] if st.add_given else None,
+                     max_source_groups=st.max_groups, output_prefix=st.prefix, **st.fasta)
+        st.args_obj = real_namespace(dests, known)
+        st.N = e.int('n_tx')
+        e.assume(st.N >= 0)
+        st.coding = z3.Function('tx_is_coding', I_, B_)
+        st.tx2gene_writes, st.coding_adds = [], []
+        st.args = [st.args_obj]
+        self._cur = st
+        return st
+
+    @property
+    def models(self):
+        c = self
+
+        def inst(reg):
+            noop = lambda I, a, k: None
+            reg.func_('moPepGen/cli/common.py', 'validate_file_format', noop)
+            reg.func_('moPepGen/cli/common.py', 'print_start_message', noop)
+            reg.strict_attr_classes = {'Namespace'}
+            zz = lambda i: i if is_z3(i) else z3.IntVal(i)
+
+            def load_refs(I, a, k):
+                st = c._cur
+                I.e.prove('C18/split-cli/annotation-loaded-from-the-run-arguments', (a[0] if a else k.get('args')) is st.args_obj)
+                txs = FnView(st.N, lambda i: SymObj('TxId18', i=zz(i)), tag='transcripts')
+                table = types.SimpleNamespace(
+                    sym_view=lambda I2: txs,
+                    sym_getitem=lambda I2, key: SymObj('TxModel18', transcript=SymObj('Tx18', gene_id=SymObj('GeneOf18', i=key.fields['i'])),
+                                                       is_protein_coding=st.coding(key.fields['i'])))
+                return (None, SymObj('Anno18', transcripts=table), None, None)
+            reg.func_('moPepGen/cli/common.py', 'load_references', load_refs)
+            reg.ext_('open', lambda I, a, k: SymObj('File18', path=a[0]))
+
+            def ctor(I, a, k):
+                st = c._cur
+                st.ctor.append(k)
+                return SymObj('Splitter18', order=SymObj('Order18'))
+            reg.ctor_('PeptidePoolSplitter', ctor)
+            reg.method_('Splitter18', 'load_database', lambda I, o, a, k: c._cur.loaded.append(a[0].fields['path']))
+            reg.method_('Splitter18', 'load_gvf', lambda I, o, a, k: c._cur.gvfs.append(a[0].fields['path']))
+            reg.method_('Splitter18', 'get_reversed_group_map', noop)
+            reg.method_('Splitter18', 'split', lambda I, o, a, k: c._cur.split.append((a, k)))
+            reg.method_('Splitter18', 'write', lambda I, o, a, k: c._cur.writes.append(a))
+            # the order entries: '-' in val, val.split('-'), frozenset(...)
+            reg.set_hooks.append(lambda v: (lambda I, v: _OrderKey(v.entry, True)) if isinstance(v, _OrderParts) else None)
+        return (inst,)
+
+    # loop 4: transcripts of the annotation -> tx2gene / coding_tx
+    def havoc_tx(self, I, env, k):
+        c = self
+
+        class Tx2Gene:
+            def sym_setitem(s_, I2, key, v):
+                c._cur.tx2gene_writes.append((key, v))
+
+        class Coding:
+            def sym_method(s_, I2, name, a, kw):
+                if name == 'add':
+                    c._cur.coding_adds.append(a[0])
+                    return None
+                raise Unsupported(name)
+        st = self._cur
+        st.tx2gene, st.coding_set = Tx2Gene(), Coding()
+        env['tx2gene'], env['coding_tx'] = st.tx2gene, st.coding_set
+
+    def head_tx(self, I, env, k):
+        st = self._cur
+        st.mark = (len(st.tx2gene_writes), len(st.coding_adds))
+
+    def step_tx(self, I, env, k):
+        st = self._cur
+        w, a = st.tx2gene_writes[st.mark[0]:], st.coding_adds[st.mark[1]:]
+        okw = len(w) == 1 and w[0][0].fields['i'] is not None and z3.is_true(z3.simplify(w[0][0].fields['i'] == k)) and z3.is_true(z3.simplify(w[0][1].fields['i'] == k))
+        return [('transcript-mapped-to-its-own-gene', okw),
+                ('recorded-as-coding-iff-protein-coding', z3.And(len(a) <= 1, (len(a) == 1) == st.coding(k)) if True else False)]
+
+    # loop 5: order entries
+    def havoc_order(self, I, env, k):
+        env['source_order'] = _GhostOrder(self)
+
+    def head_order(self, I, env, k):
+        self._cur.omark = len(self._cur.order_writes)
+
+    def step_order(self, I, env, k):
+        st = self._cur
+        w = st.order_writes[st.omark:]
+        ok = len(w) == 1 and isinstance(w[0][0], (_OrderKey, _OrderEntry))
+        items = [('entry-stored-once', ok)]
+        if ok:
+            key, rank = w[0]
+            ent = key.entry if isinstance(key, _OrderKey) else key
+            items.append(('entry-k-gets-rank-k', z3.And(ent.i == k, rank == k)))
+            items.append(('combination-stored-as-the-set-of-its-parts-else-the-source-itself', z3.BoolVal(isinstance(key, _OrderKey)) == st.multi(k)))
+        return items
+
+    @property
+    def loops(self):
+        T = lambda I, env, k: []
+        return {0: LoopSpec(inv=T),
+                2: LoopSpec(inv=T, havoc=self.havoc_tx, on_head=self.head_tx, step=self.step_tx),
+                3: LoopSpec(inv=T, havoc=self.havoc_order, on_head=self.head_order, step=self.step_order),
+                6: LoopSpec(inv=T, havoc=lambda I, env, k: None, on_head=lambda I, env, k: setattr(self._cur, 'gmark', len(self._cur.gvfs)),
+                            step=lambda I, env, k: [('gvf-k-read-once', len(self._cur.gvfs) == self._cur.gmark + 1 and self._cur.gvfs[-1].fields['i'] is not None
+                                                     and z3.is_true(z3.simplify(self._cur.gvfs[-1].fields['i'] == k)))])}
+
+    def post_return(self, I, st, ret):
+        e = I.e
+        want = [v for v in (st.fasta['variant_peptides'], st.fasta['novel_orf_peptides'], st.fasta['alt_translation_peptides']) if v is not None]
+        e.prove('C18/split-cli/every-given-fasta-loaded-once-and-nothing-else', len(st.loaded) == len(want) and all(a is b for a, b in zip(st.loaded, want)))
+        ok = len(st.split) == 1 and len(st.writes) == 1 and len(st.ctor) == 1
+        e.prove('C18/split-cli/one-splitter-split-once-and-written-once', ok)
+        if not ok:
+            return
+        a, k = st.split[0]
+        e.prove('C18/split-cli/max-source-groups-and-the-annotation-tables-reach-split',
+                not a and k.get('max_groups') is st.max_groups and k.get('tx2gene') is getattr(st, 'tx2gene', k.get('tx2gene')) and k.get('coding_tx') is getattr(st, 'coding_set', k.get('coding_tx')))
+        add = k.get('additional_split')
+        e.prove('C18/split-cli/additional-split-sets=parts-of-each-option', add == ([{'gSNP', 'gINDEL'}, {'Fusion'}] if st.add_given else []))
+        ck = st.ctor[0]
+        e.prove('C18/split-cli/group-map=member->group', ck.get('group_map') == ({'gSNP': 'Coding', 'gINDEL': 'Coding', 'SECT': 'Alt'} if st.group_given else None))
+        e.prove('C18/split-cli/order-passed-to-the-splitter', isinstance(ck.get('order'), _GhostOrder) if st.order_given else ck.get('order') is None)
+        e.prove('C18/split-cli/written-with-the-output-prefix', st.writes[0][0] is st.prefix)
+
+    def post_raise(self, I, st, exc):
+        if exc.cls == 'AttributeError':
+            I.e.prove(f'C18/split-cli/every-option-read-is-defined-by-the-parser:{exc.msg}', False)
+        else:
+            I.e.prove('C18/split-cli/raise/only-without-any-fasta-or-for-a-duplicate-order-entry',
+                      exc.cls == 'ValueError' and (not any(st.has.values()) or st.order_given))
+
+
 SUM = 'moPepGen/aa/PeptidePoolSummarizer.py'
 
 
